@@ -609,8 +609,8 @@ func recvTerm(h string) string {
 	return h
 }
 
-// CoqTable renders sites and recvs as one Coq term of type (list site * list recv), for the harness case.
-func CoqTable(r *Result) string {
+// CoqLists renders sites and recvs as two Coq list terms (list site, list recv), for the harness case.
+func CoqLists(r *Result) (string, string) {
 	var ss, rs []string
 	for _, s := range r.Sites {
 		ss = append(ss, fmt.Sprintf("mk_site \"%s\" \"%s\" \"%s\" \"%s\" K_%s L_%s %s %s", s.Func, s.Var, s.Msg, s.Field, s.Kind, s.Label, s.Mode, holderTerm(s.Holder)))
@@ -618,5 +618,5 @@ func CoqTable(r *Result) string {
 	for _, s := range r.Recvs {
 		rs = append(rs, fmt.Sprintf("mk_recv \"%s\" \"%s\" \"%s\" %s", s.Func, s.Var, s.Msg, recvTerm(s.Mode)))
 	}
-	return "([" + strings.Join(ss, "; ") + "], [" + strings.Join(rs, "; ") + "])"
+	return "[" + strings.Join(ss, "; ") + "]", "[" + strings.Join(rs, "; ") + "]"
 }
